@@ -32,6 +32,24 @@ func c06Stream(w *W) {
 		w.Failf("HARNESS/listen", "%v", err)
 		return
 	}
+	// the publisher may listen on a second transport as well: one shared
+	// publication is then framed for different mappings (8-byte length on
+	// tcp / tls, 0x01 + length on ipc, a binary frame on ws) at the same time
+	addrs := []string{addr}
+	if w.Choose(simrt.SShape, 2) == 0 {
+		all := []string{"sim", "simipc", "tcp", "ipc", "tls+tcp", "ws", "wss"}
+		tran2 := w.simFallback(all[w.Choose(simrt.SShape, len(all))])
+		if tran2 != tran {
+			addr2 := w.Addr(tran2)
+			if err := w.ListenOn(pub, addr2); err != nil {
+				w.Failf("HARNESS/listen", "%v", err)
+				return
+			}
+			addrs = append(addrs, addr2)
+			w.SetShape("tran2", tran2)
+			w.Probe("one-publication-on-two-transports")
+		}
+	}
 	topics := []string{"", "a", "ab", "b"}
 	type subr struct {
 		idx   int
@@ -50,7 +68,7 @@ func c06Stream(w *W) {
 		mustSet(w, s, mangos.OptionSubscribe, sr.topic)
 		mustSet(w, s, mangos.OptionRecvDeadline, 2*time.Millisecond)
 		mustSet(w, s, mangos.OptionReconnectTime, time.Hour) // the victim stays away
-		if err := w.DialOn(s, addr); err != nil {
+		if err := w.DialOn(s, addrs[i%len(addrs)]); err != nil {
 			w.Failf("HARNESS/dial", "%v", err)
 			return
 		}
@@ -164,4 +182,8 @@ func c06Stream(w *W) {
 func init() {
 	register(&Scenario{Name: "pub-sub-stream", Prop: "C06", Horizon: time.Hour, Weight: 1, Run: c06Stream})
 	register(&Scenario{Name: "fanout-bytes-under-reset", Prop: "C01", Horizon: time.Hour, Weight: 1, Run: c06Stream})
+	// C15: one shared publication framed for two different mappings at the same
+	// time (the subscribers' decoders are mangos' own; the byte-level oracle is
+	// that every publication arrives whole, once and in order on both)
+	register(&Scenario{Name: "shared-message-framed-for-two-mappings", Prop: "C15", Horizon: time.Hour, Weight: 2, Run: c06Stream})
 }
